@@ -200,20 +200,30 @@ macro_rules! dir_lookup_case {
         #[kani::stub(crate::internal::path::cfb_uppercase_char, table_upper)]
         #[kani::unwind(130)]
         fn $name() {
-            let t = shaped_tree($n, $child, &$links, &$keys, false);
+            let t = shaped_tree($n, $child, &$links, &$keys, true);
             let d = mk_dir(&t);
-            let q = [any_name_char()];
-            let qs = unsafe { std::str::from_utf8_unchecked(&q) };
-            let got = d.stream_id_for_name_chain(&[qs]);
-            let mut want = None;
-            let mut i = 1;
-            while i <= $n {
-                if up(t.em[i].name[0]) == up(q[0]) { want = Some(i as u32); }
-                i += 1;
+            // every present key in both letter cases, and every absent gap key
+            const CANDS: [&str; 19] = ["b", "B", "d", "D", "f", "F", "h", "H", "j", "J", "a", "c", "E", "g", "I", "k", "M", "_", "["];
+            let mut ok = true;
+            let mut some_found = false;
+            let mut some_absent = false;
+            let mut c = 0;
+            while c < CANDS.len() {
+                let qs = CANDS[c];
+                let got = d.stream_id_for_name_chain(&[qs]);
+                let mut want = None;
+                let mut i = 1;
+                while i <= $n {
+                    if up(t.em[i].name[0]) == up(qs.as_bytes()[0]) { want = Some(i as u32); }
+                    i += 1;
+                }
+                ok &= got == want;
+                some_found |= want.is_some();
+                some_absent |= want.is_none();
+                c += 1;
             }
-            assert!(got == want, "C01/C04/C09: lookup differs from the abstract map (case-insensitive, any valid tree shape)");
-            kani::cover!(want.is_some() && q[0] != t.em[want.unwrap() as usize].name[0], "found under another letter case");
-            kani::cover!(want.is_none(), "absent");
+            assert!(ok, "C01/C04/C09: lookup differs from the abstract map (case-insensitive, any valid tree shape)");
+            kani::cover!(some_found && some_absent, "present and absent names queried");
             std::mem::forget(d);
         }
     };
@@ -274,7 +284,7 @@ macro_rules! dir_insert_case {
         #[kani::stub(crate::internal::timestamp::Timestamp::now, tacc::any_now)]
         #[kani::unwind(130)]
         fn $name() {
-            let t = shaped_tree($n, $child, &$links, &$keys, false);
+            let t = shaped_tree($n, $child, &$links, &$keys, true);
             let mut d = mk_dir(&t);
             let q = [$newkey as u8];
             let qs = unsafe { std::str::from_utf8_unchecked(&q) };
